@@ -1938,13 +1938,24 @@ func (node OnDup) walkSubtree(visit Visit) error {
 	return Walk(visit, UpdateExprs(node))
 }
 
+// writeQuotedID writes an identifier in the quotes it was written with; a quote character inside
+// the name is doubled (the tokenizer folds a doubled quote into one), so that the output reads back as the same name.
+func writeQuotedID(buf *TrackedBuffer, name string, quote byte) {
+	buf.WriteByte(quote)
+	for i := 0; i < len(name); i++ {
+		buf.WriteByte(name[i])
+		if name[i] == quote {
+			buf.WriteByte(quote)
+		}
+	}
+	buf.WriteByte(quote)
+}
+
 // FormatForDialect formats the node for specified dialect
 func (node ColIdent) FormatForDialect(dialect dialect.Dialect, buf *TrackedBuffer) {
 	if node.quote != 0 {
 		// print as is in quotes
-		buf.WriteByte(node.quote)
-		buf.Write([]byte(node.val))
-		buf.WriteByte(node.quote)
+		writeQuotedID(buf, node.val, node.quote)
 	} else if node.unquote {
 		buf.Write([]byte(node.val))
 	} else {
@@ -1965,9 +1976,7 @@ func (node ColIdent) walkSubtree(visit Visit) error {
 func (node TableIdent) FormatForDialect(dialect dialect.Dialect, buf *TrackedBuffer) {
 	if node.quote != 0 {
 		// print as is in quotes
-		buf.WriteByte(node.quote)
-		buf.Write([]byte(node.v))
-		buf.WriteByte(node.quote)
+		writeQuotedID(buf, node.v, node.quote)
 	} else {
 		formatIDForDialect(dialect, buf, node.v, strings.ToLower(node.v))
 	}
@@ -1977,9 +1986,7 @@ func (node TableIdent) FormatForDialect(dialect dialect.Dialect, buf *TrackedBuf
 func (node TableIdent) Format(buf *TrackedBuffer) {
 	if node.quote != 0 {
 		// print as is in quotes
-		buf.WriteByte(node.quote)
-		buf.Write([]byte(node.v))
-		buf.WriteByte(node.quote)
+		writeQuotedID(buf, node.v, node.quote)
 	} else {
 		formatID(buf, node.v, strings.ToLower(node.v))
 	}
